@@ -236,7 +236,7 @@ impl Functor<K, Ob, Op, Ob, Op> for SFunctor {
         for (i, l) in labels.iter().enumerate() {
             let at: Vec<u32> = a[i].iter().map(|o| o.0).collect();
             let bt: Vec<u32> = b[i].iter().map(|o| o.0).collect();
-            let img = self.0.operation(l.0, &at, &bt);
+            let img = self.0.operation_cb(l.0, &at, &bt);
             acc = acc.tensor(&to_strict(&img));
         }
         acc
@@ -267,8 +267,8 @@ pub fn make_optic(t: &OpticTable) -> Optic<SFunctor, SFunctor, K, Ob, Op, Ob, Op
                 .map(|(i, l)| {
                     let at: Vec<u32> = a[i].iter().map(|o| o.0).collect();
                     let bt: Vec<u32> = b[i].iter().map(|o| o.0).collect();
-                    res.get(&(l.0, at, bt))
-                        .expect("harness: residual missing for an operation")
+                    res.get(&(l.0, at.clone(), bt.clone()))
+                        .unwrap_or_else(|| panic!("{} the library asked for the residual of operation {} : {:?} -> {:?}, which is not an operation (with these types) of the diagram", crate::functor_model::CALLBACK_VIOLATION, l.0, at, bt))
                         .iter()
                         .map(|&x| Ob(x))
                         .collect()
